@@ -78,7 +78,7 @@ class InjectedFault(OSError):
 
 class FakeFS:
     """POSIX-like file store on a dict.  The `fail_at`-th mutating call (open for writing, each
-    write(), rename) raises OSError; unlink and reads never fail (the property's fault model)."""
+    write(), the flush at close, rename) raises OSError; unlink and reads never fail (the property's fault model)."""
 
     def __init__(self, files=None, fail_at=-1):
         self.files = dict(files or {})
@@ -105,12 +105,16 @@ class FakeFS:
                     fs.files[name] = fs.files[name] + s
 
                 def close(self_):
-                    pass
+                    # buffered data reaches the disk here: a write error can surface at close time
+                    if not getattr(self_, "_closed", False):
+                        self_._closed = True
+                        fs._mutating("close " + name)
 
                 def __enter__(self_):
                     return self_
 
                 def __exit__(self_, *a):
+                    self_.close()
                     return False
             return W()
         if name not in self.files:
